@@ -275,6 +275,13 @@ def plan_c20(tier, seed):
     return plan
 
 
+def plan_c11(tier, seed):
+    p = e1_plan(["views"], ["views"], canonical_obs=["views"])(tier, seed)
+    # views obtained by find() from every view root are views like any other (value, sides)
+    p["runs"] += grid(["map"], ["u8", "Ipv4Net"] if tier == "quick" else REP7, ["U2"], ["hi", "lo"], "structural", ["find"])
+    return p
+
+
 PLANS = {
     "C01": plan_c01,
     "C20": plan_c20,
@@ -293,7 +300,7 @@ PLANS = {
     "C04": e1_plan([], [], alpha="full"),
     "C09": e1_plan(["cover"], ["lookups"]),
     "C10": e1_plan(["children"], ["lookups"], alpha="full"),
-    "C11": e1_plan(["views"], ["views"], canonical_obs=["views"]),
+    "C11": plan_c11,
     "C12": e1_plan(["find"], [], quick_types=REP7, kinds=("map",)),
     "C15": e1_plan(["wf"], [], alpha="full", canonical_obs=["wf"], kinds=("map",)),
 }
